@@ -283,6 +283,7 @@ func scenario(name string, progs []string, opts func() *store.Options, multi boo
 			return "setup-failed"
 		}
 		res := make([]*result, len(progs))
+		vsched.Focus()
 		for i, pn := range progs {
 			i, p := i, programs[pn]
 			vsched.Spawn(func() { res[i] = runProgram(st, p, i) })
